@@ -142,6 +142,21 @@ func zzQuery(form int, tagBits []bool) (query.ConditionsSet, func(d zzDesc) bool
 		hi := zz.Range("q.hi", 0, 4)
 		return query.ConditionsSet{{numCond(query.NumberConditionSummandTypeServerPort, 1, -80), numCond(query.NumberConditionSummandTypeServerPort, -1, 80), numCond(query.NumberConditionSummandTypeID, -1, hi)}},
 			func(d zzDesc) bool { return zz.And(d.sport == 80, int(d.id) <= hi) }
+	case 10: // ftime >= ftime of the stream with id S (a sub-query) + D: a time variable of a sub-query
+		S := zz.Range("q.s", 0, 3)
+		D := int64(zz.Range("q.d", 0, 1<<33-1))
+		idc := func(f, n int) *query.NumberCondition {
+			return &query.NumberCondition{Summands: []query.NumberConditionSummand{{SubQuery: "sub", Type: query.NumberConditionSummandTypeID, Factor: f}}, Number: n}
+		}
+		return query.ConditionsSet{{idc(1, -S), idc(-1, S),
+				&query.TimeCondition{Summands: []query.TimeConditionSummand{{FTimeFactor: 1}, {SubQuery: "sub", FTimeFactor: -1}}, Duration: time.Duration(-D)}}},
+			func(d zzDesc) bool {
+				r := false
+				for _, o := range zzVisible {
+					r = zz.Or(r, zz.And(int(o.id) == S, int64(d.first)-int64(o.first)-D >= 0))
+				}
+				return r
+			}
 	default: // time: some packet in [ref-T1, ref-T2]: ltime >= ref-T1 and ftime <= ref-T2
 		T1 := int64(zz.Range("q.t1", 0, 1<<35-1))
 		T2 := int64(zz.Range("q.t2", 0, 1<<35-1))
@@ -154,6 +169,9 @@ func zzQuery(form int, tagBits []bool) (query.ConditionsSet, func(d zzDesc) bool
 }
 
 const zzNumQueryForms = 10
+
+// zzVisible: the visible population (for query forms that refer to other streams)
+var zzVisible []zzDesc
 
 type zzSortSpec struct {
 	sorting []query.Sorting
@@ -208,6 +226,7 @@ func zzSortings() []zzSortSpec {
 func ZZ_C02_Search() {
 	nFiles := 1 + zz.Choice("files", zz.Param("indexfiles", 2))
 	stack, visible := zzC02Stack(nFiles)
+	zzVisible = visible
 	tagBits := []bool{zz.Bool("tag0"), zz.Bool("tag1"), zz.Bool("tag2"), zz.Bool("tag3")}
 	forms := zz.Param("queryforms", zzNumQueryForms)
 	qs, truth := zzQuery(zz.Param("queryfrom", 0)+zz.Choice("query", forms), tagBits)
